@@ -66,7 +66,15 @@ func (c11) Gen(t *Tape, tier string, run int) interface{} {
 		targets = strings.Split(only, ",") // triage aid
 	}
 	c := &c11Case{Target: targets[t.Draw("work", len(targets))], GenSeed: uint32(t.Draw("work", 1<<30)), RD: t.Pick("work", 1, 2, 4), Chunk: t.Pick("work", 0, 0, 2, 1), Kind: ReaderKinds[t.Draw("work", 2)]}
-	kinds := []string{"bitflip", "bitflip", "bitflip", "subst", "subst", "truncate", "zero-sector", "misdirect", "dup-tail", "drop-bytes", "dup-bytes", "set-delim", "ins-delim", "rec-trim", "rec-trim"}
+	kinds := []string{"bitflip", "bitflip", "bitflip", "subst", "subst", "truncate", "zero-sector", "misdirect", "dup-tail", "drop-bytes", "dup-bytes", "set-delim", "ins-delim", "rec-trim", "rec-trim", "zero-number"}
+	// structure-aware weighting: text formats get more delimiter and number
+	// edits, binary index formats more length-field edits
+	switch c.Target {
+	case "sam", "fai", "fasta":
+		kinds = []string{"bitflip", "subst", "truncate", "drop-bytes", "dup-bytes", "set-delim", "ins-delim", "zero-number", "zero-number", "zero-number", "dup-tail"}
+	case "bai", "csi", "tabix":
+		kinds = append(kinds, "int32-edit", "int32-edit", "int32-edit")
+	}
 	n := 1 + t.Draw("work", 4)
 	if t.Chance("work", 1, 2) {
 		n = 1
@@ -120,6 +128,26 @@ func applyFaults(img []byte, fs []StoreFault) ([]byte, []bool) {
 			out = append(out[:a+n], append(dup, out[a+n:]...)...)
 		case "set-delim": // a byte turned into one of the formats' delimiters
 			out[a] = []byte{'\t', '\n', ':', 0, ',', '@', '*'}[f.B%7]
+		case "int32-edit": // a length-field edit for binary formats
+			p := a &^ 3
+			if p+4 <= len(out) {
+				v := []uint32{0xffffffff, 0, 0x7fffffff, 0x80000000, 1}[f.B%5]
+				binary.LittleEndian.PutUint32(out[p:], v)
+			}
+		case "zero-number":
+			// a length-field edit for text formats: the decimal number at or
+			// after position a becomes 0
+			i := a
+			for i < len(out) && (out[i] < '0' || out[i] > '9') {
+				i++
+			}
+			j := i
+			for j < len(out) && out[j] >= '0' && out[j] <= '9' {
+				j++
+			}
+			if j > i {
+				out = append(out[:i], append([]byte{'0'}, out[j:]...)...)
+			}
 		case "ins-delim": // a delimiter byte inserted
 			d := []byte{'\t', '\n', ':', 0, ',', '@', '*'}[f.B%7]
 			out = append(out[:a], append([]byte{d}, out[a:]...)...)
@@ -592,8 +620,9 @@ func decode(x *Exec, c *c11Case, file *File) (outcome string) {
 		var out bytes.Buffer
 		fai.WriteTo(&out, idx)
 		for _, r := range idx {
-			r.Position(0)
+			// Position panics by contract for p outside [0, Length)
 			if r.Length > 0 {
+				r.Position(0)
 				r.Position(r.Length - 1)
 			}
 		}
